@@ -245,6 +245,49 @@ def test_int_model():
     return n
 
 
+def test_json_model():
+    """the value tree the json model attaches to a text == json.loads(json.dumps(obj)) of the real json, and the same exceptions"""
+    import enum
+    import math
+
+    from . import symjson
+
+    class E(enum.IntEnum):
+        A = 3
+
+    nan, inf = float("nan"), float("inf")
+    objs = [{}, [], {"a": 1}, {1: "x", -5: [1, 2, (3, 4)]}, {True: 1, False: 2}, {None: 0}, {"k": {2**63: -(2**63)}}, [1.5, -0.0, 0.0, 1e308, 5e-324, inf, -inf],
+            {"e": E.A, "s": "\ud800\u20ac\x00\"", "n": None, "t": True}, [[[]]], {"m": {"1": 1}}, b"x", {"b": b""}, {1.5: 1}, {(1, 2): 3}, {"x": {1, 2}}, [nan], {"f": nan}]  # fmt: skip
+    n = 0
+
+    def same(a, b):
+        if isinstance(a, float) and isinstance(b, float):
+            return (math.isnan(a) and math.isnan(b)) or (a == b and math.copysign(1, a) == math.copysign(1, b))
+        if isinstance(a, dict) and isinstance(b, dict):
+            return list(a) == list(b) and all(same(a[k], b[k]) for k in a)
+        if isinstance(a, list) and isinstance(b, list):
+            return len(a) == len(b) and all(same(x, y) for x, y in zip(a, b))
+        return type(a) is type(b) and a == b
+
+    for allow_nan in (True, False):
+        for o in objs:
+            try:
+                want = json.loads(json.dumps(o, allow_nan=allow_nan))
+            except (TypeError, ValueError) as e:
+                want = type(e)
+            try:
+                got = symjson._value(o, allow_nan)
+            except (TypeError, ValueError) as e:
+                got = type(e)
+            except BaseException as e:
+                if type(e).__name__ == "Unsupported":
+                    continue  # declared outside the model (float keys)
+                raise
+            assert (got is want) if isinstance(want, type) else same(got, want), (o, allow_nan, got, want)
+            n += 1
+    return n
+
+
 def run_pinned_tests_under_hook():
     """the repository's pinned tests with the DESUGAR loader active on concrete values: identical outcome to the plain run"""
     code = (
@@ -270,7 +313,8 @@ def main():
     worker.init_symbolic()
     ok = True
     for name, fn in (("regex model vs re", test_regex_model), ("repository casing inputs through the model", test_casing_pairs), ("utf-8 model vs CPython", test_utf8_model),
-                     ("base64 model vs base64", test_base64_model), ("struct float model vs struct", test_struct_float_model), ("int model", test_int_model)):  # fmt: skip
+                     ("base64 model vs base64", test_base64_model), ("struct float model vs struct", test_struct_float_model), ("int model", test_int_model),
+                     ("json model vs json", test_json_model)):  # fmt: skip
         try:
             n = fn()
             print("selftest %-45s ok (%d cases)" % (name, n), flush=True)
